@@ -340,6 +340,435 @@ func scaleFacts(repo string) {
 	fmt.Println("end Generated.ScaleFacts")
 }
 
+// ---------------------------------------------------------------- shared helpers (facts other than ScaleFacts)
+
+func die(format string, a ...any) {
+	fmt.Fprintf(os.Stderr, "extract: "+format+"\n", a...)
+	os.Exit(1)
+}
+
+func pf(format string, a ...any) { fmt.Printf(format, a...) }
+
+func header(name string, files ...string) {
+	pf("-- GENERATED by /verif/extract from %s on every check run. Do not edit.\n", "/repo/"+strings.Join(files, ", /repo/"))
+	pf("namespace Generated.%s\n", name)
+}
+
+func footer(name string, nodes ...ast.Node) {
+	pf("def fingerprint : String := %s\n", leanStr(fingerprint(nodes...)))
+	pf("end Generated.%s\n", name)
+}
+
+// bytesOf renders the UTF-8 bytes of a Go string as a Lean `List Nat`.
+func bytesOf(s string) string {
+	b := []byte(s)
+	out := make([]string, len(b))
+	for i, c := range b {
+		out[i] = strconv.Itoa(int(c))
+	}
+	return "[" + strings.Join(out, ", ") + "]"
+}
+
+func strLit(e ast.Expr) (string, bool) {
+	if p, ok := e.(*ast.ParenExpr); ok {
+		return strLit(p.X)
+	}
+	if bl, ok := e.(*ast.BasicLit); ok && bl.Kind == token.STRING {
+		s, err := strconv.Unquote(bl.Value)
+		return s, err == nil
+	}
+	return "", false
+}
+
+// decForm gives the exact decimal value of a Go decimal INT/FLOAT literal text:
+// value = mant * 10^exp (mant a decimal digit string without leading zeros).
+func decForm(lit string) (mant string, exp int, ok bool) {
+	t := strings.ReplaceAll(lit, "_", "")
+	if strings.HasPrefix(t, "0x") || strings.HasPrefix(t, "0X") || strings.HasPrefix(t, "0b") || strings.HasPrefix(t, "0o") {
+		return "", 0, false
+	}
+	if i := strings.IndexAny(t, "eE"); i >= 0 {
+		v, err := strconv.Atoi(strings.TrimPrefix(t[i+1:], "+"))
+		if err != nil {
+			return "", 0, false
+		}
+		exp, t = v, t[:i]
+	}
+	ip, fp := t, ""
+	if i := strings.IndexByte(t, '.'); i >= 0 {
+		ip, fp = t[:i], t[i+1:]
+	}
+	digits := ip + fp
+	if digits == "" {
+		return "", 0, false
+	}
+	for _, c := range digits {
+		if c < '0' || c > '9' {
+			return "", 0, false
+		}
+	}
+	exp -= len(fp)
+	mant = strings.TrimLeft(digits, "0")
+	if mant == "" {
+		mant = "0"
+	}
+	return mant, exp, true
+}
+
+// num is a numeric literal, possibly signed: source text and exact decimal.
+type num struct {
+	text string
+	neg  bool
+	mant string
+	exp  int
+}
+
+func numLit(e ast.Expr) (num, bool) {
+	switch v := e.(type) {
+	case *ast.ParenExpr:
+		return numLit(v.X)
+	case *ast.UnaryExpr:
+		if v.Op == token.SUB || v.Op == token.ADD {
+			n, ok := numLit(v.X)
+			if ok && v.Op == token.SUB {
+				n.neg = !n.neg
+				n.text = "-" + n.text
+			}
+			return n, ok
+		}
+	case *ast.BasicLit:
+		if v.Kind == token.INT || v.Kind == token.FLOAT {
+			m, x, ok := decForm(v.Value)
+			return num{v.Value, false, m, x}, ok
+		}
+	}
+	return num{}, false
+}
+
+func mustNum(e ast.Expr, what string) num {
+	n, ok := numLit(e)
+	if !ok {
+		die("%s: %s is not a decimal numeric literal", what, src(e))
+	}
+	return n
+}
+
+// lean renders (negative, mantissa, decimal exponent) : Bool × Nat × Int
+func (n num) lean() string {
+	return fmt.Sprintf("(%v, %s, (%d : Int))", n.neg, n.mant, n.exp)
+}
+
+// natVal is the value of a non-negative integer literal.
+func (n num) natVal(what string) string {
+	if n.neg || n.exp < 0 {
+		die("%s: %s is not a natural number", what, n.text)
+	}
+	return n.mant + strings.Repeat("0", n.exp)
+}
+
+func joinS(l []string) string { return "[" + strings.Join(l, ", ") + "]" }
+
+// opN: comparison / boolean operator codes shared by all generated files
+// 0:>= 1:> 2:<= 3:< 4:== 5:!= 6:|| 7:&&
+func opN(op token.Token) int {
+	switch op {
+	case token.GEQ:
+		return 0
+	case token.GTR:
+		return 1
+	case token.LEQ:
+		return 2
+	case token.LSS:
+		return 3
+	case token.EQL:
+		return 4
+	case token.NEQ:
+		return 5
+	case token.LOR:
+		return 6
+	case token.LAND:
+		return 7
+	}
+	return 9
+}
+
+func unparen(e ast.Expr) ast.Expr {
+	for {
+		p, ok := e.(*ast.ParenExpr)
+		if !ok {
+			return e
+		}
+		e = p.X
+	}
+}
+
+func isSel(e ast.Expr, x, sel string) bool {
+	s, ok := unparen(e).(*ast.SelectorExpr)
+	if !ok || s.Sel.Name != sel {
+		return false
+	}
+	id, ok := s.X.(*ast.Ident)
+	return ok && id.Name == x
+}
+
+func isIdent(e ast.Expr, name string) bool {
+	id, ok := unparen(e).(*ast.Ident)
+	return ok && id.Name == name
+}
+
+func callOf(e ast.Expr) (fun string, args []ast.Expr, ok bool) {
+	c, ok := unparen(e).(*ast.CallExpr)
+	if !ok {
+		return "", nil, false
+	}
+	return src(c.Fun), c.Args, true
+}
+
+// ---------------------------------------------------------------- C04: benchunit/tidy.go
+
+func tidyFacts(repo string) {
+	f := parseFile(repo, "benchunit/tidy.go")
+	tu := funcDecl(f, "tidyUnit")
+	tuu := funcDecl(f, "tidyUnitUncached")
+	ty := funcDecl(f, "Tidy")
+
+	// tidyUnit: `switch unit { case …: return …, … }` then `if !(Contains || Contains) { return unit, 1 }`
+	var fastS, fastN []string
+	var pre []string
+	preNeg, preOp, preFound := false, token.ILLEGAL, false
+	var preRet num
+	preRetUnit := false
+	for _, st := range tu.Body.List {
+		switch x := st.(type) {
+		case *ast.SwitchStmt:
+			if !isIdent(x.Tag, "unit") {
+				continue
+			}
+			for _, c := range x.Body.List {
+				cc := c.(*ast.CaseClause)
+				if len(cc.Body) != 1 {
+					die("tidyUnit: fast-path case with %d statements", len(cc.Body))
+				}
+				rs, ok := cc.Body[0].(*ast.ReturnStmt)
+				if !ok || len(rs.Results) != 2 {
+					die("tidyUnit: fast-path case does not return two values")
+				}
+				factor := mustNum(rs.Results[1], "tidyUnit fast-path factor")
+				for _, l := range cc.List {
+					label, ok := strLit(l)
+					if !ok {
+						die("tidyUnit: case label %s is not a string literal", src(l))
+					}
+					tidied, ok := strLit(rs.Results[0])
+					if !ok {
+						if !isIdent(rs.Results[0], "unit") {
+							die("tidyUnit: unrecognised fast-path result %s", src(rs.Results[0]))
+						}
+						tidied = label
+					}
+					fastS = append(fastS, fmt.Sprintf("(%s, %s, %s)", leanStr(label), leanStr(tidied), leanStr(factor.text)))
+					fastN = append(fastN, fmt.Sprintf("(%s, %s, %s)", bytesOf(label), bytesOf(tidied), factor.lean()))
+				}
+			}
+		case *ast.IfStmt:
+			if preFound {
+				continue
+			}
+			cond := unparen(x.Cond)
+			neg := false
+			for {
+				u, ok := cond.(*ast.UnaryExpr)
+				if !ok || u.Op != token.NOT {
+					break
+				}
+				neg = !neg
+				cond = unparen(u.X)
+			}
+			var subs []string
+			op := token.ILLEGAL
+			good := true
+			var walk func(e ast.Expr)
+			walk = func(e ast.Expr) {
+				e = unparen(e)
+				if be, ok := e.(*ast.BinaryExpr); ok && (be.Op == token.LOR || be.Op == token.LAND) {
+					if op != token.ILLEGAL && op != be.Op {
+						good = false
+					}
+					op = be.Op
+					walk(be.X)
+					walk(be.Y)
+					return
+				}
+				fun, args, ok := callOf(e)
+				if ok && fun == "strings.Contains" && len(args) == 2 && isIdent(args[0], "unit") {
+					if s, ok := strLit(args[1]); ok {
+						subs = append(subs, s)
+						return
+					}
+				}
+				good = false
+			}
+			walk(cond)
+			if !good || len(subs) == 0 {
+				continue
+			}
+			if len(x.Body.List) != 1 {
+				die("tidyUnit: pre-filter body has %d statements", len(x.Body.List))
+			}
+			rs, ok := x.Body.List[0].(*ast.ReturnStmt)
+			if !ok || len(rs.Results) != 2 {
+				die("tidyUnit: pre-filter body does not return two values")
+			}
+			pre, preNeg, preOp, preFound = subs, neg, op, true
+			preRetUnit = isIdent(rs.Results[0], "unit")
+			preRet = mustNum(rs.Results[1], "tidyUnit pre-filter factor")
+		}
+	}
+	if len(fastS) == 0 {
+		die("tidyUnit: fast-path switch not found")
+	}
+	if !preFound {
+		die("tidyUnit: strings.Contains pre-filter not found")
+	}
+
+	// tidyUnitUncached
+	var initFactor *num
+	denomSkipped := false
+	var editS, editN []string
+	reverse := false
+	applyExpr := ""
+	ast.Inspect(tuu.Body, func(n ast.Node) bool {
+		switch x := n.(type) {
+		case *ast.AssignStmt:
+			if len(x.Lhs) == 1 && len(x.Rhs) == 1 && isIdent(x.Lhs[0], "factor") && x.Tok == token.ASSIGN && initFactor == nil {
+				v := mustNum(x.Rhs[0], "tidyUnitUncached initial factor")
+				initFactor = &v
+			}
+			if len(x.Lhs) == 1 && len(x.Rhs) == 1 && isIdent(x.Lhs[0], "unit") && x.Tok == token.ASSIGN {
+				applyExpr = src(x.Rhs[0])
+			}
+		case *ast.IfStmt:
+			if isSel(x.Cond, "p", "denom") && len(x.Body.List) == 1 {
+				if b, ok := x.Body.List[0].(*ast.BranchStmt); ok && b.Tok == token.CONTINUE {
+					denomSkipped = true
+				}
+			}
+		case *ast.SwitchStmt:
+			if !isSel(x.Tag, "p", "tok") {
+				return true
+			}
+			for _, c := range x.Body.List {
+				cc := c.(*ast.CaseClause)
+				if len(cc.List) != 1 {
+					die("tidyUnitUncached: case with %d labels", len(cc.List))
+				}
+				tok, ok := strLit(cc.List[0])
+				if !ok {
+					die("tidyUnitUncached: case label %s", src(cc.List[0]))
+				}
+				var pos, lenArg, repl string
+				var fop token.Token
+				var fnum num
+				gotEdit, gotFactor := false, false
+				for _, st := range cc.Body {
+					as, ok := st.(*ast.AssignStmt)
+					if !ok || len(as.Lhs) != 1 || len(as.Rhs) != 1 {
+						die("tidyUnitUncached: unexpected statement %s", src(st))
+					}
+					if isIdent(as.Lhs[0], "edits") {
+						fun, args, ok := callOf(as.Rhs[0])
+						if !ok || fun != "append" || len(args) != 2 {
+							die("tidyUnitUncached: %s", src(as.Rhs[0]))
+						}
+						cl, ok := args[1].(*ast.CompositeLit)
+						if !ok || len(cl.Elts) != 3 {
+							die("tidyUnitUncached: edit literal %s", src(args[1]))
+						}
+						pos = src(cl.Elts[0])
+						lf, largs, ok := callOf(cl.Elts[1])
+						if !ok || lf != "len" || len(largs) != 1 {
+							die("tidyUnitUncached: edit length %s", src(cl.Elts[1]))
+						}
+						if lenArg, ok = strLit(largs[0]); !ok {
+							die("tidyUnitUncached: edit length %s", src(cl.Elts[1]))
+						}
+						if repl, ok = strLit(cl.Elts[2]); !ok {
+							die("tidyUnitUncached: edit replacement %s", src(cl.Elts[2]))
+						}
+						gotEdit = true
+					} else if isIdent(as.Lhs[0], "factor") {
+						fop = as.Tok
+						if fop != token.QUO_ASSIGN && fop != token.MUL_ASSIGN {
+							die("tidyUnitUncached: factor operator %s", fop)
+						}
+						fnum = mustNum(as.Rhs[0], "tidyUnitUncached factor")
+						gotFactor = true
+					} else {
+						die("tidyUnitUncached: unexpected statement %s", src(st))
+					}
+				}
+				if !gotEdit || !gotFactor {
+					die("tidyUnitUncached: case %q lacks edit or factor", tok)
+				}
+				opc := 0
+				if fop == token.MUL_ASSIGN {
+					opc = 1
+				}
+				editS = append(editS, fmt.Sprintf("(%s, %s, %s, %s, %s, %s)", leanStr(tok), leanStr(pos), leanStr(lenArg), leanStr(repl), leanStr(fop.String()), leanStr(fnum.text)))
+				editN = append(editN, fmt.Sprintf("(%s, %d, %s, %d, %s)", bytesOf(tok), len(lenArg), bytesOf(repl), opc, fnum.lean()))
+			}
+		case *ast.ForStmt:
+			// for i := len(edits) - 1; i >= 0; i--
+			if x.Init != nil && x.Cond != nil && x.Post != nil &&
+				src(x.Init) == "i := len(edits) - 1" && src(x.Cond) == "i >= 0" && src(x.Post) == "i--" {
+				reverse = true
+			}
+		}
+		return true
+	})
+	if initFactor == nil || len(editS) == 0 || applyExpr == "" {
+		die("tidyUnitUncached: structure not recognised")
+	}
+	// Tidy: return value * factor, newUnit
+	var tidyExpr string
+	tidyMul := false
+	for _, st := range ty.Body.List {
+		if rs, ok := st.(*ast.ReturnStmt); ok && len(rs.Results) == 2 {
+			tidyExpr = src(rs.Results[0])
+			if be, ok := rs.Results[0].(*ast.BinaryExpr); ok && be.Op == token.MUL {
+				tidyMul = (isIdent(be.X, "value") && isIdent(be.Y, "factor")) || (isIdent(be.X, "factor") && isIdent(be.Y, "value"))
+			}
+		}
+	}
+
+	header("TidyFacts", "benchunit/tidy.go")
+	pf("/-- fast-path `switch unit` of tidyUnit, source text: (case label, returned unit, factor literal) -/\n")
+	pf("def fastTableS : List (String × String × String) := %s\n", joinS(fastS))
+	pf("/-- numeric form: (label bytes, returned-unit bytes, factor as (negative, mantissa, decimal exponent)) -/\n")
+	pf("def fastTable : List (List Nat × List Nat × (Bool × Nat × Int)) := %s\n", joinS(fastN))
+	pf("/-- substrings of the `strings.Contains(unit, …)` pre-filter, in source order -/\n")
+	pf("def prefilterS : List String := %s\n", leanStrList(pre))
+	b := make([]string, len(pre))
+	for i, s := range pre {
+		b[i] = bytesOf(s)
+	}
+	pf("def prefilter : List (List Nat) := %s\n", joinS(b))
+	pf("/-- the pre-filter condition is `!(… op …)`: negated?, op code (6:|| 7:&& 9:single call) -/\n")
+	pf("def prefilterNegated : Bool := %v\ndef prefilterOpN : Nat := %d\n", preNeg, opN(preOp))
+	pf("/-- what the pre-filter returns: the unit unchanged?, and the factor -/\n")
+	pf("def prefilterReturnsUnit : Bool := %v\ndef prefilterFactor : Bool × Nat × Int := %s\n", preRetUnit, preRet.lean())
+	pf("/-- tidyUnitUncached `switch p.tok`, source text: (token, position expr, len argument, replacement, factor operator, factor literal) -/\n")
+	pf("def editsS : List (String × String × String × String × String × String) := %s\n", joinS(editS))
+	pf("/-- numeric form: (token bytes, edit length, replacement bytes, 0:`/=` 1:`*=`, factor literal) -/\n")
+	pf("def edits : List (List Nat × Nat × List Nat × Nat × (Bool × Nat × Int)) := %s\n", joinS(editN))
+	pf("def initFactor : Bool × Nat × Int := %s\n", initFactor.lean())
+	pf("/-- `if p.denom { continue }` present -/\ndef denomSkipped : Bool := %v\n", denomSkipped)
+	pf("/-- edits applied by `for i := len(edits) - 1; i >= 0; i--` -/\ndef editsAppliedLastFirst : Bool := %v\n", reverse)
+	pf("def applyExpr : String := %s\n", leanStr(applyExpr))
+	pf("def tidyValueExpr : String := %s\ndef tidyValueIsMul : Bool := %v\n", leanStr(tidyExpr), tidyMul)
+	footer("TidyFacts", ty, tu, tuu)
+}
+
 func main() {
 	if len(os.Args) != 3 {
 		fmt.Fprintln(os.Stderr, "usage: extract <FactsName> <repo>")
@@ -348,6 +777,8 @@ func main() {
 	switch os.Args[1] {
 	case "ScaleFacts":
 		scaleFacts(os.Args[2])
+	case "TidyFacts":
+		tidyFacts(os.Args[2])
 	default:
 		fmt.Fprintln(os.Stderr, "unknown facts", os.Args[1])
 		os.Exit(2)
